@@ -5,6 +5,7 @@ import (
 	"context"
 	stdjson "encoding/json"
 	"fmt"
+	"io"
 	"math"
 	"reflect"
 	"strings"
@@ -60,6 +61,20 @@ func c03Entries() []c03Entry {
 		{"MarshalWithOption(DisableNormalizeUTF8)", false, false, func(x any) ([]byte, error) { return gojson.MarshalWithOption(x, gojson.DisableNormalizeUTF8()) }},
 		{"Encoder", true, true, enc()},
 		{"Encoder(UnorderedMap,DisableHTMLEscape)", true, true, enc(gojson.UnorderedMap(), gojson.DisableHTMLEscape())},
+		// Debug puts a second dispatch (DebugRun) in front of each interpreter
+		{"MarshalWithOption(Debug)", false, true, func(x any) ([]byte, error) {
+			return gojson.MarshalWithOption(x, gojson.Debug(), gojson.DebugWith(io.Discard))
+		}},
+		{"MarshalIndentWithOption(Debug)", false, true, func(x any) ([]byte, error) {
+			return gojson.MarshalIndentWithOption(x, "", " ", gojson.Debug(), gojson.DebugWith(io.Discard))
+		}},
+		{"Encoder(SetIndent).EncodeWithOption(Debug)", true, true, func(x any) ([]byte, error) {
+			var b bytes.Buffer
+			e := gojson.NewEncoder(&b)
+			e.SetIndent("", " ")
+			err := e.EncodeWithOption(x, gojson.Debug(), gojson.DebugWith(io.Discard))
+			return b.Bytes(), err
+		}},
 		{"Encoder(SetIndent)", true, true, func(x any) ([]byte, error) {
 			var b bytes.Buffer
 			e := gojson.NewEncoder(&b)
